@@ -188,9 +188,10 @@ func c11Check(w *c11World, class string) {
 			attached := podAlive && has(w.podGroups(), g)
 			vr.Assert((n == 1) == attached, "C11.reservation-exists-iff-a-live-pod-is-attached-after-sync"+class)
 		}
-		if pod.Spec.NodeName == "" && !crashed && len(st.Faulted) <= 1 {
-			// with a single API failure the rollback itself is undisturbed: the failed attempt's GPU
-			// group labels are removed, and with them (by the sync above) the reservation pods
+		if pod.Spec.NodeName == "" && !crashed && len(st.Faulted)+st.WatchFailures <= 1 {
+			// with a single disturbance (API failure or failed watch) the rollback itself is undisturbed:
+			// the failed attempt's GPU group labels are removed, and with them (by the sync above) the
+			// reservation pods
 			vr.Assert(len(w.podGroups()) == 0, "C11.failed-attempt-rollback-removes-gpu-group-labels"+class)
 		}
 	}
